@@ -176,6 +176,27 @@ CLAIMED = {
              "specification (firstBearing + whole-name match); each entry's key cross-checked with the fetcher.",
         note="Over-listing inside accessible accounts of a requested wallet (the lister's un-grouped anchoring) is not flagged: C18 as stated allows it.",
         ref="DESIGN.md §6 C18"),
+    "C19": dict(
+        technique="Lean 4 theorem on a transport-policy model instantiated with facts regenerated from the source on every run (factx: client-auth mode, credentials on the only gRPC server, registered services, interceptor chain, origin of the client name) + exhaustive credential x method matrix against a real daemon over TLS",
+        text="Partial (crypto/tls assumed). Theorems C19_policy / C19: with the regenerated server configuration, whatever RPC is served "
+             "was requested with a currently valid certificate from a configured authority and carries that certificate's subject name; "
+             "the fact obligations (facts_tls_*, facts_services, facts_interceptor, facts_clientName) are re-proved against the source "
+             "on every run. Tie: testing/daemon.New on 127.0.0.1; 11 credential kinds minted at run time (plaintext, no certificate, "
+             "self-signed, other authority, expired, not yet valid, valid permitted/unpermitted clients, a peer) x every method of every "
+             "service in the pb descriptors x two wallets; refused-vs-served compared with the model; identity observed through "
+             "permission outcomes and the DKG unknown-sender reply.",
+        note="Assumed: crypto/tls and x509 implement the documented ClientAuthType semantics; gRPC dispatches only on an established connection. factx is a syntactic extractor (go/ast).",
+        ref="DESIGN.md §6 C19", engine="lean+factx+dh"),
+    "C20": dict(
+        technique="Lean 4 theorems with crash-capable operations made explicit (slice capacity, request-sized allocation) + regenerated inventory of panic-capable sites checked against a reviewed list by the kernel + handler-model correspondence through the real gRPC API + raw-wire fuzzing of a daemon child under an address-space limit with liveness probes",
+        text="Partial (runtime memory). Theorems C20_sites_covered (every site factx finds is reviewed; decide +kernel), "
+             "C20_domain_slice_safe, C20_alloc_bounded, C20_dkg_non_peer, C20_handlers_shape. Tie: seeded histories through the real gRPC "
+             "API (TLS, interceptors, handlers) diffed position by position with the Lean handler model; raw protobuf bytes (absent / "
+             "empty / duplicated fields, odd byte lengths, extreme integers, batches, unknown fields, wrong wire types, truncation, "
+             "garbage, DKG messages from non-peers) sent over gRPC to a daemon in a child process under ulimit -v 16 GiB, a second "
+             "client probing liveness after every message.",
+        note="Assumed: allocator size classes (short byte fields get capacity >= 8), C-library robustness. The inventory is syntactic (panic, unchecked assertion, constant-bound slice, non-constant make); plain indexing is covered by the shape theorems.",
+        ref="DESIGN.md §6 C20", engine="lean+factx+dh"),
 }
 
 
